@@ -109,21 +109,35 @@ static int inv_ghosts(clp item, clp key, cip rank, int themax, int sz, int nm, i
 /* Default (functional instances): every block has a CONSTANT number of cells >= max() (CAP for the operands, 2*CAP+1
  * for blocks obtained from malloc/realloc): small SAT encoding, full postcondition.  EXACT_ALLOC (the `_mem` twin of each
  * instance): every block has EXACTLY the number of cells the code asked for (symbolic block sizes: every access outside
- * [0,max()) is a failed obligation) and only memory safety, frame and the callee preconditions are kept (ENSURES -> true). */
+ * [0,max()) is a failed obligation) and only memory safety, frame, absence of exceptions and "the resulting blocks have
+ * max() cells" are kept (ENSURES -> true).  Twins whose symbolic block sizes exhaust the solver fix the capacities of the
+ * operands to constants (TMAX_IS, RMAX_IS); sizes, contents and the requested new capacity stay symbolic. */
 #ifdef EXACT_ALLOC
 #define ALLOC_T TM
 #define ALLOC_R rmax
 #define ENSURES(e) __CPROVER_ensures(1)
+#ifdef TMAX_IS
+#define TMAX_OK (TM == TMAX_IS)
+#endif
+#ifdef RMAX_IS
+#define RMAX_OK (rmax == RMAX_IS)
+#endif
 #else
 #define ALLOC_T CAP
 #define ALLOC_R CAP
 #define ENSURES(e) __CPROVER_ensures(e)
 #endif
+#ifndef TMAX_OK
+#define TMAX_OK (1 <= TM && TM <= CAP)
+#endif
+#ifndef RMAX_OK
+#define RMAX_OK (1 <= rmax && rmax <= CAP)
+#endif
 #define FRESH_SCALARS (__CPROVER_is_fresh(themax, sizeof(int)) && __CPROVER_is_fresh(thesize, sizeof(int)) \
    && __CPROVER_is_fresh(thenum, sizeof(int)) && __CPROVER_is_fresh(firstfree, sizeof(int)))
-#define FRESH_THIS (FRESH_SCALARS && 1 <= TM && TM <= CAP && __CPROVER_is_fresh(item, ALLOC_T * sizeof(long long)) \
+#define FRESH_THIS (FRESH_SCALARS && TMAX_OK && __CPROVER_is_fresh(item, ALLOC_T * sizeof(long long)) \
    && __CPROVER_is_fresh(key, ALLOC_T * sizeof(long long)) && __CPROVER_is_fresh(rank, ALLOC_T * sizeof(int)))
-#define FRESH_RHS (1 <= rmax && rmax <= CAP && __CPROVER_is_fresh(ritem, ALLOC_R * sizeof(long long)) \
+#define FRESH_RHS (RMAX_OK && __CPROVER_is_fresh(ritem, ALLOC_R * sizeof(long long)) \
    && __CPROVER_is_fresh(rkey, ALLOC_R * sizeof(long long)) && __CPROVER_is_fresh(rrank, ALLOC_R * sizeof(int)))
 /* the post-state arrays are blocks of max() cells (one cell if max() == 0: spx_realloc(p, 0) allocates one element) */
 #define BLOCKS_OK (__CPROVER_rw_ok(RET, (TM > 0 ? TM : 1) * sizeof(long long)) && __CPROVER_rw_ok(gp_key, (TM > 0 ? TM : 1) * sizeof(long long)))
@@ -148,7 +162,8 @@ __CPROVER_requires(!(0 <= g_g && g_g < NM) || v_key == key[g_g])
 __CPROVER_assigns(gp_key, __CPROVER_object_whole(item), __CPROVER_object_whole(key), *themax, *thesize, *thenum, *firstfree, *delta)
 __CPROVER_frees(item, key)
 ENSURES(*delta == (long)RET - (long)item)
-ENSURES(TM == NEWMAX && SZ == g_s0 && NM == g_n0 && FF == MAPEND(g_f0) && BLOCKS_OK)
+ENSURES(TM == NEWMAX && SZ == g_s0 && NM == g_n0 && FF == MAPEND(g_f0))
+__CPROVER_ensures(BLOCKS_OK)
 ENSURES(!(0 <= g_i && g_i < g_s0) || (LO32(RET[g_i]) == v_dat && HI32(RET[g_i]) == MAPEND(v_a)))
 ENSURES(!(0 <= g_g && g_g < g_n0) || gp_key[g_g] == v_key)
 ENSURES(inv_ghosts(RET, gp_key, rank, TM, SZ, NM, FF, g_g, g_i, g_j))
@@ -172,7 +187,8 @@ void h_reMax(void)
 __CPROVER_requires(!(0 <= g_i && g_i < rsize) || (v_a == HI32(ritem[g_i]) && v_dat == LO32(ritem[g_i]))) \
 __CPROVER_requires(!(0 <= g_g && g_g < rnum) || v_key == rkey[g_g])
 #define COPY_ENSURES(c) \
-ENSURES(!(c) || (SZ == rsize && NM == rnum && FF == MAPR(rff) && BLOCKS_OK)) \
+ENSURES(!(c) || (SZ == rsize && NM == rnum && FF == MAPR(rff))) \
+__CPROVER_ensures(!(c) || BLOCKS_OK) \
 ENSURES(!((c) && 0 <= g_i && g_i < rsize) || (LO32(RET[g_i]) == v_dat && HI32(RET[g_i]) == MAPR(v_a))) \
 ENSURES(!((c) && 0 <= g_g && g_g < rnum) || gp_key[g_g] == v_key) \
 ENSURES(!(c) || inv_ghosts(RET, gp_key, rrank, TM, SZ, NM, FF, g_g, g_i, g_j))
